@@ -48,6 +48,7 @@ DIMS = {
     "custom": ["a", "b", "c", "d"],
     "nonascii": ["α", "β", "γ", "δ"],
     "words": ["len", "wid", "hgt", "tim"],
+    "permuted-defaults": ["z", "x", "y", "w"],  # the default names in another order: a name must never be taken for a position
     "ndarray": "ndarray",  # custom names handed over as numpy array of str
 }
 UNITS = {
@@ -135,7 +136,8 @@ def _subregions(region, ndim, typing, layout, styp):
 
 def _bc_domain(dims, ndim):
     names = {"default": ["x", "y", "z"][:ndim] if ndim <= 3 else None, "custom": DIMS["custom"][:ndim],
-             "nonascii": DIMS["nonascii"][:ndim], "words": None, "ndarray": DIMS["custom"][:ndim]}[dims]
+             "nonascii": DIMS["nonascii"][:ndim], "words": None, "ndarray": DIMS["custom"][:ndim],
+             "permuted-defaults": DIMS["permuted-defaults"][:ndim]}[dims]
     dom = ["", "neumann", "dirichlet"]
     if names is not None:
         dom = ["", names[0], "".join(reversed(names)), "neumann", "dirichlet"]
@@ -324,9 +326,9 @@ def _mesh_choices(ctx, full):
     # insertion order of the subregion names: alphabetical or not (the file stores names and corners separately)
     global _SUBNAMES
     _SUBNAMES = ctx.choose("subnames", ["first,second", "zeta,alpha"] if len(LAYOUTS[layout][0]) == 2 else ["first,second"])
-    dims = ctx.choose("dims", ["default", "nonascii", "ndarray"] if (q and full) else list(DIMS))
+    dims = ctx.choose("dims", ["default", "nonascii", "ndarray", "permuted-defaults"] if (q and full) else list(DIMS))
     units = ctx.choose("units", ["m", "distinct", "ndarray"] if (q and full) else list(UNITS))
-    tol = ctx.choose("tolerance", [1e-12, 1e-9])
+    tol = ctx.choose("tolerance", [1e-12, 0] if q else [1e-12, 1e-9, 0])  # 0 = exact comparisons, given as a Python int
     bcdom = _bc_domain(dims, ndim)
     bc = ctx.choose("bc", [b for b in bcdom if not (q and full and b == "dirichlet")])
     return ndim, typing, layout, styp, dims, units, tol, bc
